@@ -1,1 +1,180 @@
-/-! Property theorems for C01 (none yet). -/
+import MirVerif.Props.C02
+import MirVerif.Lemmas.GenTable
+import MirVerif.Lemmas.GenPow2
+import MirVerif.Lemmas.BridgeC01
+/-! # C01 — generated code behaves like the interpreter: theorems about the optimizer fragments
+whose tables/texts are regenerated from mir-gen.c and mir.c on every run.  (The pipeline as a whole —
+SSA, LICM, RA, combine, encoder — is decided by the engine correspondence, see DESIGN.md.) -/
+namespace MirVerif
+
+/-- the interpreter's `UIOP3[S]` and the folder's `UOP3[S]` macros have the same meaning -/
+theorem macroSem_uiop (o : BinOp) (x y : W64) :
+    macroSem (.UOP3 o) x y = macroSem (.UIOP3 o) x y ∧ macroSem (.UOP3S o) x y = macroSem (.UIOP3S o) x y :=
+  ⟨rfl, rfl⟩
+
+theorem foldSem_canon (a : AOp) (s : Bool) (x y : W64) (r : Option W64)
+    (h : foldSem (canonFold a s) x y = some r) : r = macroSem (canonKind a s) x y := by
+  cases a <;> cases s <;>
+    simp only [canonFold, foldSem, canonKind, if_true, if_false, Bool.false_eq_true,
+      Option.some.injEq] at h ⊢ <;>
+    first
+      | (subst h; rfl)
+      | (split at h <;> first | (cases h; rfl) | exact absurd h (by simp))
+
+/-- **GVN constant folding = interpreter arithmetic = documentation.**  For the fold table of the
+current mir-gen.c: every integer opcode has exactly one fold row, and whenever the folder replaces
+`op a b` by a constant, that constant is what the interpreter's macro computes, which is the
+documented result — for all operand values. -/
+theorem fold_table_meets_doc (a : AOp) (s : Bool) :
+    ∃ f, (opName a s, f) ∈ Gen.C01.foldRows ∧
+      (∀ f', (opName a s, f') ∈ Gen.C01.foldRows → f' = f) ∧
+      ∀ x y r, foldSem f x y = some r →
+        r = macroSem (canonKind a s) x y ∧ optRel (agree a s) r (docSem a s x y) := by
+  have hc := canon_fold_complete
+  rw [List.all_eq_true] at hc
+  have h1 := hc a (AOp.mem_all a)
+  rw [List.all_eq_true] at h1
+  have h2 := h1 s (by cases s <;> simp)
+  have hm : (opName a s, canonFold a s) ∈ Gen.C01.foldRows := by
+    rw [gen_foldRows]; simpa using h2
+  refine ⟨canonFold a s, hm, ?_, ?_⟩
+  · intro f' hf'
+    exact nodup_keys_unique _ _ _ _ (by rw [gen_foldRows]; exact canon_fold_functional) hf' hm
+  · intro x y r hr
+    have e := foldSem_canon a s x y r hr
+    exact ⟨e, e ▸ interp_meets_doc a s x y⟩
+
+/-- **The folder never evaluates a trapping division**: when a `div/mod/udiv/umod[s]` row folds,
+the C expression it evaluates at compile time is defined (no division by zero, no `MIN / -1`), for
+all constant operands. -/
+theorem fold_division_defined (a : AOp) (ha : a = .div ∨ a = .mod ∨ a = .udiv ∨ a = .umod) (s : Bool)
+    (x y : W64) (r : Option W64) (h : foldSem (canonFold a s) x y = some r) : r ≠ none := by
+  rcases ha with rfl | rfl | rfl | rfl <;> cases s <;>
+    simp only [canonFold, canonKind, foldSem, if_true, if_false, Bool.false_eq_true] at h <;>
+    (generalize hb : foldGuard _ y = g at h
+     cases g
+     · simp at h
+     · simp only [if_true] at h
+       cases h
+       simp only [foldGuard, Bool.and_eq_true, bne_iff_ne, ne_eq] at hb
+       have e64 : (18446744073709551615#64) = BitVec.allOnes 64 := by decide
+       have e32 : (4294967295#32) = BitVec.allOnes 32 := by decide
+       simp [macroSem, cS, cU, e64, e32]
+       first | exact ⟨hb.1, fun _ => hb.2⟩ | exact hb)
+
+/-- `MIR_reverse_branch_code` of the current mir.c: for every integer compare-and-branch opcode
+the table gives an opcode that branches exactly when the original does not (used by jump
+optimisation and by the combiner), for all operand values. -/
+theorem reverse_branch_table (a : AOp) (ha : a ∈ AOp.cmps) (s : Bool) :
+    ∃ a', a.neg = some a' ∧ (brName a s, brName a' s) ∈ Gen.C01.reverseRows ∧
+      (∀ n', (brName a s, n') ∈ Gen.C01.reverseRows → n' = brName a' s) ∧
+      ∀ x y, docBranch a' s x y = !docBranch a s x y := by
+  have hc := canon_reverse_complete
+  rw [List.all_eq_true] at hc
+  have h1 := hc a ha
+  rw [List.all_eq_true] at h1
+  have h2 := h1 s (by cases s <;> simp)
+  cases hn : a.neg with
+  | none => simp [hn] at h2
+  | some a' =>
+    simp only [hn] at h2
+    have hm : (brName a s, brName a' s) ∈ Gen.C01.reverseRows := by
+      rw [gen_reverseRows]; simpa using h2
+    refine ⟨a', rfl, hm, ?_, branch_neg a a' hn s⟩
+    intro n' hn'
+    exact nodup_keys_unique _ _ _ _ (by rw [gen_reverseRows]; exact canon_reverse_functional) hn' hm
+
+/-- `get_combined_br_code` of the current mir-gen.c: `cmp r,a,b; bt L,r` combines into the branch
+with the comparison's own condition, `bf L,r` into its negation. -/
+theorem combined_branch_table (a : AOp) (ha : a ∈ AOp.cmps) (s : Bool) :
+    ∃ a', a.neg = some a' ∧ (opName a s, brName a s, brName a' s) ∈ Gen.C01.combRows ∧
+      (∀ x y, docBranch a s x y = (match docSem a s x y with | some r => r != 0 | none => false)) ∧
+      ∀ x y, docBranch a' s x y = !docBranch a s x y := by
+  have hc := canon_comb_complete
+  rw [List.all_eq_true] at hc
+  have h1 := hc a ha
+  rw [List.all_eq_true] at h1
+  have h2 := h1 s (by cases s <;> simp)
+  cases hn : a.neg with
+  | none => simp [hn] at h2
+  | some a' =>
+    simp only [hn] at h2
+    exact ⟨a', rfl, by rw [gen_combRows]; simpa using h2, fun _ _ => rfl, branch_neg a a' hn s⟩
+
+/-- `commutative_insn_code` of the current mir-gen.c: an integer opcode is in the table exactly when
+exchanging its operands under the table's image preserves the result; opcodes for which no such
+image exists (sub, div, mod, shifts) are absent. -/
+theorem commutative_table (a : AOp) (s : Bool) :
+    (∀ a', a.swap = some a' →
+        (opName a s, opName a' s) ∈ Gen.C01.commRows ∧ ∀ x y, docSem a' s y x = docSem a s x y) ∧
+    (a.swap = none → ∀ n, (opName a s, n) ∉ Gen.C01.commRows) := by
+  have hc := canon_comm_sound
+  rw [List.all_eq_true] at hc
+  have h1 := hc a (AOp.mem_all a)
+  rw [List.all_eq_true] at h1
+  have h2 := h1 s (by cases s <;> simp)
+  constructor
+  · intro a' ha'
+    simp only [ha'] at h2
+    exact ⟨by rw [gen_commRows]; simpa using h2, sem_swap a a' ha' s⟩
+  · intro hnone n hmem
+    simp only [hnone] at h2
+    rw [gen_commRows] at hmem
+    have : opName a s ∈ Canon.C01.commRows.map (·.1) := List.mem_map_of_mem (f := (·.1)) hmem
+    simp at h2
+    exact absurd this (by simpa using h2)
+
+/-- `transform_mul_div` (text pinned by `pinned_texts_unchanged_c01`): multiplication, unsigned and
+signed division by `2^k` are the shift sequences the generator emits — 64-bit forms for every `k` the
+code admits (`gen_int_log2` of a positive int64 is ≤ 62), 32-bit forms under the guards
+`sh < 32` (muls, udivs) and `sh < 31` (divs) that the code checks. -/
+theorem transform_mul_div_sound :
+    (∀ (x : BitVec 64) k, x * BitVec.twoPow 64 k = x <<< k) ∧
+    (∀ (x : BitVec 64) k, k < 64 → x / BitVec.twoPow 64 k = x >>> k) ∧
+    (∀ (x : BitVec 64) k, k ≤ 62 → x.sdiv (BitVec.twoPow 64 k)
+        = ((x.sshiftRight 63 &&& (BitVec.twoPow 64 k - 1)) + x).sshiftRight k) ∧
+    (∀ (x : BitVec 32) k, x * BitVec.twoPow 32 k = x <<< k) ∧
+    (∀ (x : BitVec 32) k, k < 32 → x / BitVec.twoPow 32 k = x >>> k) ∧
+    (∀ (x : BitVec 32) k, k ≤ 30 → x.sdiv (BitVec.twoPow 32 k)
+        = ((x.sshiftRight 31 &&& (BitVec.twoPow 32 k - 1)) + x).sshiftRight k) :=
+  ⟨mul_pow2_64, udiv_pow2_64, sdiv_pow2_64, mul_pow2_32, udiv_pow2_32, sdiv_pow2_32⟩
+
+/-- why the guards are needed: without them the 32-bit rewrites are wrong (the defects repaired by
+the `fix:` commit 5b36c439) -/
+theorem transform_mul_div_guards_needed :
+    (∃ x : BitVec 32, x * (BitVec.ofNat 32 (2 ^ 40)) ≠ x <<< (40 % 32)) ∧
+    (∃ x : BitVec 32, x.sdiv (BitVec.twoPow 32 31)
+        ≠ ((x.sshiftRight 31 &&& (BitVec.twoPow 32 31 - 1)) + x).sshiftRight 31) :=
+  ⟨⟨1, by decide⟩, ⟨BitVec.intMin 32, by decide⟩⟩
+
+/-- store→load forwarding (GVN): replacing `r = T:(a)` after `T:(a) = v` by `r = v` is sound exactly
+for the 64-bit memory types; for narrower ones the load yields the documented extension
+(`narrow_ls`), which differs from `v` in general. -/
+theorem store_load_forward (k : Nat) (hk : k = 8 ∨ k = 16 ∨ k = 32 ∨ k = 64) (signed : Bool) :
+    (∀ old v : W64, loadExt k signed (storeTrunc k old v) = v) ↔ k = 64 := by
+  constructor
+  · intro h
+    rcases hk with rfl | rfl | rfl | rfl
+    · have := h 0 0x100; cases signed <;> revert this <;> decide
+    · have := h 0 0x10000; cases signed <;> revert this <;> decide
+    · have := h 0 0x100000000; cases signed <;> revert this <;> decide
+    · rfl
+  · rintro rfl old v
+    simp [loadExt, storeTrunc]
+
+/-- address re-association used by GVN and the combiner: `(r + c1) + c2 = r + (c1 + c2)` in 64-bit
+and in low-32-bit arithmetic -/
+theorem addr_reassoc (r c1 c2 : W64) :
+    (r + c1) + c2 = r + (c1 + c2) ∧ lo32 ((r + c1) + c2) = lo32 (r + (c1 + c2)) := by
+  rw [BitVec.add_assoc]; exact ⟨rfl, rfl⟩
+
+/-- the pinned source texts (GVN macros and getters, gen_int_log2, power2_int_op,
+transform_mul_div, canonic_mem_type) are the reviewed ones -/
+theorem pinned_texts_unchanged_c01 : Gen.C01.pinned = Canon.C01.pinned := gen_pinned01
+
+/-- non-vacuity -/
+example : foldSem (canonFold .div true) 7 0x1_00000000 = none := by decide
+example : foldSem (canonFold .div false) 7 2 = some (some 3) := by decide
+example : (AOp.lt).neg = some .ge ∧ AOp.lt ∈ AOp.cmps := by decide
+
+end MirVerif
